@@ -59,7 +59,9 @@ func (r *remoteHTTPProxyCache) UploadFile(item backendproxy.UploadReq) {
 	}
 
 	rsp, err := r.remote.Do(req)
-	if err == nil && rsp.StatusCode == http.StatusOK {
+	// Only CAS blobs are content addressed: an AC or RAW entry that the
+	// backend already has might hold an older value for this key.
+	if err == nil && rsp.StatusCode == http.StatusOK && item.Kind == cache.CAS {
 		r.accessLogger.Printf("SKIP UPLOAD %s", item.Hash)
 		_ = item.Rc.Close()
 		return
